@@ -698,13 +698,13 @@ pub(crate) fn run(
                         if inner.search_slots(&input, &mut inner_slots).is_some() {
                             for i in 0..(end_group - start_group) {
                                 let slot = (start_group + i) * 2;
+                                // A group that did not take part in this match of the delegate
+                                // keeps what it had: inside a loop that is the span from an
+                                // earlier iteration, as in a backtracking engine.
                                 if let Some(start) = inner_slots[(i + 1) * 2] {
                                     let end = inner_slots[(i + 1) * 2 + 1].unwrap();
                                     state.save(slot, start.get());
                                     state.save(slot + 1, end.get());
-                                } else {
-                                    state.save(slot, usize::MAX);
-                                    state.save(slot + 1, usize::MAX);
                                 }
                             }
                             ix = inner_slots[1].unwrap().get();
